@@ -186,6 +186,8 @@ def _kind(e):
         return "type-error"
     if isinstance(e, RecursionError):
         return "recursion-error"
+    if isinstance(e, RuntimeError):
+        return "runtime-error"
     return "other:" + type(e).__name__
 
 
@@ -669,6 +671,169 @@ def _nas_streams(ctx, cs):
                branch="upqsetpv:separate-real")
     ctx.extra["upqsetpv_spec_hypothesis"] = (
         "Separate (driver op `sep`) holds on all %d consistent generated dictionaries of this run" % nsep)
+
+
+def _tran_reply(r, with_dof=True):
+    from props import c18_tran as T
+
+    if r[0] != "ok":
+        return r[0]
+    if with_dof:
+        m, od = r[1]
+        return "ok %s | %s" % (T.show_mat(m), _s(np.asarray(od).ravel()))
+    return "ok " + T.show_mat(r[1])
+
+
+def _copy_nas(nas):
+    out = dict(nas)
+    if "ulvs" in nas:
+        out["ulvs"] = dict(nas["ulvs"])
+    return out
+
+
+def _tran_streams(ctx, cs, masks):
+    """n2p.formtran / formulvs / formdrm / addulvs on toy nas2cam dictionaries with small integer matrices
+    (harness/props/c18_tran.py): exact comparison of the matrices, the output DOF and the exception kinds"""
+    import warnings
+    from props import c18_nas as N, c18_tran as T
+
+    n2p, _ = _mods()
+    rng = ctx.rng
+    nmask = {k: int(v) for k, v in n2p.mkusetmask().items()}
+    for it in range(ctx.pick(140, 1400)):
+        res_o = it % 3 != 0
+        nas, info = N.gen_nas(rng, deep=(3 + it // 10 % 2) if it % 10 == 0 else None, res_o=res_o)
+        variant = ["phg", "pha", "phg", "pha", "none", "phg"][it % 6] if it < 60 else None
+        tags = T.add_matrices(rng, nas, nmask, variant)
+        for t_ in tags:
+            ctx.count("tran-input:" + t_)
+        secs = N.serialize(nas) + " | " + T.mats_sections(nas)
+        plain = {"nas": N.to_plain(nas), "mats": T.plain_mats(nas), "parent": {str(k): v for k, v in info["parent"].items()},
+                 "expected_upa": {str(k): v for k, v in info["expected_upa"].items()}}
+        ses = info["order"]
+        with warnings.catch_warnings():
+            warnings.simplefilter("ignore")
+            # ---- formtran ----
+            for se in [0] + rng.sample(ses, min(len(ses), 2)):
+                for _ in range(2):
+                    py, kind, sec, rt = T.gen_request(rng, nas["uset"][se], nmask)
+                    gset = se == 0 and rng.random() < 0.35
+                    r = _call(n2p.formtran, nas, se, py, gset)
+                    impl = _tran_reply(r)
+                    if r[0] == "ok":
+                        if se == 0:
+                            br = "formtran0:" + ("gset" if gset else "phg" if 0 in nas["phg"] else "pha")
+                        else:
+                            br = "formtran:" + ("all-a-set" if "a-only" in rt else "general")
+                    else:
+                        br = ("formtran0:" if se == 0 else "formtran:") + r[0]
+                    if r[0] == "ok" and se != 0:
+                        L = T._letters(nas["uset"][se], nmask)
+                        keys = [tuple(k) for k in nas["uset"][se].index.tolist()]
+                        for d_ in T.expand(py):
+                            if d_ in keys:
+                                ctx.count("formtran-row:" + L[keys.index(d_)])
+                        if any(L[keys.index(d_)] not in "qrcb" for d_ in T.expand(py) if d_ in keys):
+                            br = "formtran:general"
+                        else:
+                            br = "formtran:all-a-set"
+                    if "repeated" in rt and r[0] == "ok":
+                        ctx.count("formtran:repeated-dof")
+                    cs.add("formtran", "ftran %d %d %s | %s | %s" % (se, gset, kind, secs, sec), impl,
+                           dict(plain, what="formtran", se=se, dof=py, gset=gset), nontrivial=r[0] == "ok", branch=br)
+            # ---- formulvs ----
+            for c in ses:
+                path = [c]
+                while path[-1] != 0:
+                    path.append(info["parent"][path[-1]])
+                for sedn in ([0] + ([rng.choice(path[1:])] if len(path) > 2 else [])):
+                    kc, sc = rng.random() < 0.6, rng.random() < 0.5
+                    gset = sedn == 0 and rng.random() < 0.3
+                    r = _call(n2p.formulvs, nas, c, sedn, kc, sc, gset)
+                    impl = _tran_reply(r, False)
+                    depth = path.index(sedn)
+                    br = "formulvs:" + (r[0] if r[0] != "ok" else "depth-%d" % min(depth, 3))
+                    if r[0] == "ok" and not kc:
+                        ctx.count("formulvs:keepcset-false")
+                    if r[0] == "ok" and gset:
+                        ctx.count("formulvs:gset")
+                    if r[0] == "ok" and sedn != 0:
+                        ctx.count("formulvs:to-upstream-se")
+                    cs.add("formulvs", "fulvs %d %d %d %d %d | %s | none" % (c, sedn, kc, sc, gset, secs), impl,
+                           dict(plain, what="formulvs", seup=c, sedn=sedn, keepcset=kc, gset=gset),
+                           nontrivial=r[0] == "ok" and depth > 1, branch=br)
+            # seup == sedn, an SE that is not in selist
+            c = rng.choice(ses)
+            for a_, b_ in ((c, c), (0, 0), (999, 0)):
+                r = _call(n2p.formulvs, nas, a_, b_)
+                cs.add("formulvs", "fulvs %d %d 1 1 0 | %s | none" % (a_, b_, secs), _tran_reply(r, False),
+                       dict(plain, what="formulvs-trivial", seup=a_, sedn=b_), nontrivial=False,
+                       branch="formulvs:" + ("one" if r[0] == "ok" and np.ndim(r[1]) == 0 else r[0]))
+            # ---- formdrm ----
+            for c in rng.sample(ses, min(len(ses), 2)):
+                path = [c]
+                while path[-1] != 0:
+                    path.append(info["parent"][path[-1]])
+                sedn = rng.choice(path)
+                py, kind, sec, rt = T.gen_request(rng, nas["uset"][c], nmask)
+                gset = sedn == 0 and rng.random() < 0.3
+                r = _call(n2p.formdrm, nas, c, py, sedn, gset)
+                impl = _tran_reply(r)
+                br = "formdrm:" + (r[0] if r[0] != "ok" else ("same-se" if sedn == c else "downstream"))
+                cs.add("formdrm", "fdrm %d %d %d %s | %s | none | %s" % (c, sedn, gset, kind, secs, sec), impl,
+                       dict(plain, what="formdrm", seup=c, sedn=sedn, dof=py, gset=gset), nontrivial=r[0] == "ok", branch=br)
+            # ---- addulvs (on a copy: it changes the dictionary), with and without an `ulvs` entry already there ----
+            pick = rng.sample(ses, rng.randint(1, min(3, len(ses))))
+            if rng.random() < 0.3:
+                pick.append(pick[0])
+            n2 = _copy_nas(nas)
+            pre = rng.random() < 0.4
+            if pre:
+                n2["ulvs"] = {pick[-1]: np.array([[float(rng.randint(-3, 3)) for _ in range(2)] for _ in range(2)])}
+            usec = T.ulvs_section(n2)
+            kc, sc = rng.random() < 0.7, rng.random() < 0.6
+            r = _call(n2p.addulvs, n2, *pick, keepcset=kc, shortcut=sc)
+            if r[0] == "ok":
+                impl = ("ok " + " ; ".join("%d : %s" % (int(k), T.show_mat(v)) for k, v in n2["ulvs"].items())).strip()
+            else:
+                impl = r[0]
+            br = "addulvs:" + (r[0] if r[0] != "ok" else ("existing-entry" if pre else "new"))
+            cs.add("addulvs", "addulvs 0 %d %d 0 | %s | %s | %s" % (kc, sc, secs, usec, _s(pick)), impl,
+                   dict(plain, what="addulvs", ses=pick, keepcset=kc), nontrivial=r[0] == "ok", branch=br)
+            if pre and sc and r[0] == "ok":
+                ctx.count("addulvs:shortcut-keeps-stored")
+    # ---- usetprt: the returned table ----
+    allsets = "m,s,o,q,r,c,b,e,l,t,a,d,f,fe,n,ne,g,p,u1,u2,u3,u4,u5,u6".split(",")
+    for it in range(ctx.pick(150, 1500)):
+        rows, nas_, style = _gen_table(ctx, masks)
+        r = _call(n2p.make_uset, rows, nas_)
+        if r[0] != "ok":
+            continue
+        uset = r[1]
+        tbl = []
+        for (i, d), w in zip(uset.index.tolist(), uset["nasset"].values.tolist()):
+            tbl += [int(i), int(d), int(w)]
+        r0 = rng.random()
+        if r0 < 0.2:
+            ps, names = "*", "*"
+        elif r0 < 0.35:
+            ps, names = None, "m s o q r c b e l t a f n g"
+        else:
+            pick = [rng.choice(allsets + ["zz"]) for _ in range(rng.randint(1, 6))]
+            names = " ".join(pick)
+            ps = ",".join((" " if rng.random() < 0.3 else "") + (x.upper() if rng.random() < 0.2 else x) for x in pick)
+        r = _call(n2p.usetprt, 0, uset, ps) if ps is not None else _call(n2p.usetprt, 0, uset)
+        if r[0] != "ok":
+            impl, br = r[0], "usetprt:" + r[0]
+        elif r[1] is None:
+            impl, br = "ok none", "usetprt:none"
+        else:
+            t = r[1]
+            body = " ; ".join(_s(list(ix) + list(vals)) for ix, vals in zip(t.index.tolist(), t.values.tolist()))
+            impl = "ok %s | %s" % (" ".join(t.columns.tolist()), body)
+            br = "usetprt:" + ("all-rows" if t.shape[0] == uset.shape[0] else "rows-dropped")
+        cs.add("usetprt", "usetprt | %s | %s" % (_s(tbl), names), impl,
+               {"rows": rows, "nasset": nas_, "printsets": ps}, nontrivial=r[0] == "ok" and r[1] is not None, branch=br)
 
 
 def _canon_slice(r):
@@ -1165,6 +1330,7 @@ def correspondence(ctx):
     if masks and all(k in masks for k in NAMED + USER):
         _makeuset_xyz_stream(ctx, cs, masks)
         _nas_streams(ctx, cs)
+        _tran_streams(ctx, cs, masks)
     _locate_streams(ctx, cs)
     _index_streams(ctx, cs)
     _xyz_stream(ctx, cs)
@@ -1683,6 +1849,196 @@ def _oracle_locate(ctx, kind, inp):
                      dict(inp, kind=kind), [m, p1, p2], "list1 == [m[i] for i in pv1], list2 == [m[i] for i in pv2], orders kept")
 
 
+def _oracle_tran(ctx, inp):
+    """formtran / formulvs / formdrm / addulvs restated on the API against the defining relations of the stored
+    matrices (c18_tran.full_from_aset / chain_avec: u_o = GOT u_t + GOQ u_q, u_m = GM u_n, u_s = 0, level by level)"""
+    import warnings
+    from props import c18_tran as T
+
+    n2p, _ = _mods()
+    masks = {k: int(v) for k, v in n2p.mkusetmask().items()}
+    nas = T.from_plain(inp["nas"], inp["mats"])
+    parent = {int(k): v for k, v in inp["parent"].items()}
+    upa = {int(k): v for k, v in inp["expected_upa"].items()}
+    what = inp["what"]
+    rs = np.random.default_rng(12345)
+    full_inp = dict(inp, kind="tran")
+
+    def xvec(n):
+        return rs.integers(-3, 4, (n, 2)).astype(float)
+
+    def nset(se, letters):
+        return sum(1 for t in T._letters(nas["uset"][se], masks) if t in letters)
+
+    with warnings.catch_warnings():
+        warnings.simplefilter("ignore")
+        if what in ("formtran", "formdrm"):
+            se = inp["se"] if what == "formtran" else inp["seup"]
+            sedn = se if what == "formtran" else inp["sedn"]
+            gset = bool(inp.get("gset"))
+            dof = inp["dof"]
+            u = nas["uset"][se]
+            keys = [tuple(int(v) for v in k) for k in u.index.tolist()]
+            L = T._letters(u, masks)
+            req = T.expand(dof)
+            missing = [d for d in req if d not in keys or L[keys.index(d)] == "e"]
+            r = _call(n2p.formtran, nas, se, dof, gset) if what == "formtran" else \
+                _call(n2p.formdrm, nas, se, dof, sedn, gset)
+            tag = "%s-%s" % (what, "residual" if se == 0 else "upstream-se")
+            if missing:
+                if r[0] != "value-error":
+                    ctx.fail(tag + "-missing-dof-accepted", "a requested DOF that is not in the g-set must raise ValueError",
+                             full_inp, r[0] if r[0] != "ok" else "a matrix", "ValueError")
+                return
+            # the a-set displacements of `se` for two random load cases at `sedn`
+            if sedn == 0:
+                if gset:
+                    x = xvec(nset(0, "msoqrcb"))
+                elif 0 in nas["phg"]:
+                    x = xvec(nas["phg"][0].shape[1])
+                elif 0 in nas["pha"]:
+                    x = xvec(nas["pha"][0].shape[1])
+                else:
+                    return  # nothing defines the residual's motion: the routine must refuse (correspondence)
+            else:
+                x = xvec(nset(sedn, "qrcb"))
+            try:
+                if se == sedn:
+                    if se == 0:
+                        if gset:
+                            full = np.zeros((len(L), 2))
+                            full[[i for i, t in enumerate(L) if t in "msoqrcb"]] = x
+                        else:
+                            full = T.residual_full(nas, masks, x)
+                            if 0 not in nas["phg"]:
+                                if any(L[keys.index(d)] == "o" for d in req):
+                                    return  # documented: "Routine not set up for this"
+                                ocols = [j for j, t in enumerate([t for t in L if t in "soqrcb"]) if t == "o"]
+                                if "m" in L and any(L[keys.index(d)] == "m" for d in req) and np.any(nas["gm"][0][:, ocols]):
+                                    return
+                    else:
+                        full = T.full_from_aset(nas, se, masks, x)
+                else:
+                    xa = T.chain_avec(nas, masks, parent, upa, se, sedn, x, gset)
+                    if xa is None:
+                        return
+                    full = T.full_from_aset(nas, se, masks, xa)
+            except KeyError:
+                return  # a stored matrix the relations need is missing
+            want = full[[keys.index(d) for d in req]]
+            fam = tag + "-wrong-rows"
+            if len(set(req)) < len(req) and se == 0 and gset:
+                fam = "formtran-se0-gset-repeated-dof"
+            if r[0] != "ok":
+                ctx.fail(tag + "-raises", "%s raises %s on a request whose DOF are all recoverable" % (what, r[0]),
+                         full_inp, r[0], "a matrix with one row per requested DOF")
+                return
+            tran, od = r[1]
+            got = np.asarray(tran) @ x if np.ndim(tran) else x * tran
+            if [tuple(int(v) for v in k) for k in np.asarray(od).reshape(-1, 2).tolist()] != req or \
+                    got.shape != want.shape or not np.array_equal(got, want):
+                ctx.fail(fam, "{DOF} = Tran * {a-set / modal / g-set DOF}: row k of the result must recover requested "
+                         "DOF k from the defining relations (identity on the a-set, GOT/GOQ on the o-set, GM on the "
+                         "m-set, 0 on the s-set)", full_inp, np.asarray(got).tolist(), want.tolist())
+        elif what == "formulvs":
+            c, sedn, kc, gset = inp["seup"], inp["sedn"], bool(inp["keepcset"]), bool(inp.get("gset"))
+            r = _call(n2p.formulvs, nas, c, sedn, kc, False, gset)
+            if r[0] != "ok" or np.ndim(r[1]) == 0:
+                return  # refusals are compared by the correspondence; nothing to restate
+            ul = np.asarray(r[1])
+            # (1) the chain: ULVS(c -> sedn) = ULVS(c -> p) @ ULVS(p -> sedn) for the SE p just below c
+            p_ = parent.get(c)
+            if p_ is not None and p_ != sedn:
+                r1 = _call(n2p.formulvs, nas, c, p_, kc, False, gset)
+                r2 = _call(n2p.formulvs, nas, p_, sedn, kc, False, gset)
+                if r1[0] == "ok" and r2[0] == "ok":
+                    prod = np.asarray(r1[1]) @ np.asarray(r2[1])
+                    if prod.shape != ul.shape or not np.array_equal(prod, ul):
+                        ctx.fail("formulvs-chain-not-the-product", "ULVS(seup -> sedn) must be ULVS(seup -> p) @ ULVS(p -> sedn)",
+                                 full_inp, ul.tolist(), prod.tolist())
+                        return
+            # (2) the physical relation (all sets kept)
+            if kc:
+                if sedn == 0:
+                    if gset:
+                        x = xvec(nset(0, "msoqrcb"))
+                    elif 0 in nas["phg"]:
+                        x = xvec(nas["phg"][0].shape[1])
+                    elif 0 in nas["pha"]:
+                        x = xvec(nas["pha"][0].shape[1])
+                    else:
+                        return
+                else:
+                    x = xvec(nset(sedn, "qrcb"))
+                try:
+                    xa = T.chain_avec(nas, masks, parent, upa, c, sedn, x, gset)
+                except KeyError:
+                    return
+                if xa is None:
+                    return
+                got = ul @ x
+                if got.shape != xa.shape or not np.array_equal(got, xa):
+                    ctx.fail("formulvs-wrong-recovery", "{upstream T & Q} = ULVS * {downstream DOF}: the a-set displacements of "
+                             "the upstream SE, recovered level by level from the defining relations", full_inp,
+                             got.tolist(), xa.tolist())
+        elif what == "addulvs":
+            ses, kc = inp["ses"], bool(inp["keepcset"])
+            n2 = dict(nas)
+            r = _call(n2p.addulvs, n2, *ses, keepcset=kc)
+            if r[0] != "ok":
+                return
+            for se in ses:
+                r1 = _call(n2p.formulvs, nas, se, 0, kc, False)
+                if r1[0] != "ok" or se not in n2.get("ulvs", {}) or not np.array_equal(np.asarray(n2["ulvs"][se]), np.asarray(r1[1])):
+                    ctx.fail("addulvs-stored-is-not-formulvs", "nas['ulvs'][se] must be formulvs(nas, se) for every listed SE",
+                             full_inp, "entry of SE %d" % se, "formulvs(nas, %d)" % se)
+                    return
+            r2 = _call(n2p.formulvs, n2, ses[0], 0, kc, True)
+            if r2[0] != "ok" or not np.array_equal(np.asarray(r2[1]), np.asarray(n2["ulvs"][ses[0]])):
+                ctx.fail("addulvs-shortcut-differs", "formulvs(shortcut=True) after addulvs must return the stored matrix",
+                         full_inp, r2[0], "the stored matrix")
+
+
+def _oracle_usetprt(ctx, inp):
+    """the table usetprt returns: one column per requested set (in the documented order), one row per DOF that is in
+    at least one requested set, in table order; an entry is the DOF's number within the set (from 1) or 0"""
+    n2p, _ = _mods()
+    rows, nas_, ps = inp["rows"], inp["nasset"], inp["printsets"]
+    uset = n2p.make_uset(rows, nas_)
+    base = []
+    for r_, l in zip(rows, nas_):
+        base += [l] * (6 if r_[1] == 123456 else 1)
+    order = "m,s,o,q,r,c,b,e,l,t,a,d,f,fe,n,ne,g,p,u1,u2,u3,u4,u5,u6".split(",")
+    if ps == "*":
+        req = order
+    else:
+        want_names = [x.strip().lower() for x in (ps or "m,s,o,q,r,c,b,e,l,t,a,f,n,g").split(",")]
+        req = [x for x in order if x in want_names]
+    cols = {}
+    for x in req:
+        k, col = 0, []
+        for b in base:
+            if x in MEMBERS and b in MEMBERS[x]:
+                k += 1
+                col.append(k)
+            else:
+                col.append(0)
+        cols[x] = col
+    want = [[int(i), int(d), n + 1] + [cols[x][n] for x in req]
+            for n, (i, d) in enumerate(uset.index.tolist()) if any(cols[x][n] for x in req)]
+    r = _call(n2p.usetprt, 0, uset, ps) if ps is not None else _call(n2p.usetprt, 0, uset)
+    finp = dict(inp, kind="usetprt")
+    if r[0] != "ok":
+        ctx.fail("usetprt-raises", "usetprt raises", finp, r[0], want)
+        return
+    t = r[1]
+    got = [] if t is None else [list(map(int, ix)) + list(map(int, v)) for ix, v in zip(t.index.tolist(), t.values.tolist())]
+    names = [] if t is None else t.columns.tolist()
+    if got != want or (t is not None and names != req):
+        ctx.fail("usetprt-table-not-the-partition-listing", "every DOF of the requested sets exactly once, in table order, "
+                 "numbered within each set; columns in the documented order", finp, [names, got], [req, want])
+
+
 def _corpus(ctx):
     path = os.path.join(ctx.verif, "corpus", "c18.json")
     return json.load(open(path)) if os.path.exists(path) else []
@@ -1708,6 +2064,10 @@ def _run_one(ctx, inp):
         _oracle_maskplus(ctx, inp["spec"])
     elif k == "findse":
         _oracle_findse(ctx, inp["selist"], inp["se"])
+    elif k == "tran":
+        _oracle_tran(ctx, inp)
+    elif k == "usetprt":
+        _oracle_usetprt(ctx, inp)
     elif k == "xyz":
         _oracle_xyz(ctx, [([tuple(x) for x in perm], sc, tuple(p)) for perm, sc, p in inp["nodes"]], inp["tol"],
                     inp.get("perturb", 0.0))
@@ -1743,6 +2103,10 @@ def _hint_to_input(h):
             return dict(i, kind="matint") if i["keep"] in (0, 1, 2) else None  # other values are undocumented
         if s == "findse":
             return dict(i, kind="findse")
+        if s in ("formtran", "formulvs", "formdrm", "addulvs"):
+            return dict(i, kind="tran") if i.get("what") in ("formtran", "formulvs", "formdrm", "addulvs") else None
+        if s == "usetprt":
+            return dict(i, kind="usetprt") if all(isinstance(x, str) and x in BASE for x in i["nasset"]) else None
         if s == "find_subseq":
             return dict(i, kind="subseq")
         if s in ("flippv", "index2bool"):
